@@ -52,6 +52,21 @@ Theorem C17_env_prefixed_accepted : forall p b ds min,
 Proof. exact env_prefixed_accepted. Qed.
 Print Assumptions C17_env_prefixed_accepted.
 
+(* leading-zero octal numerals ("017") *)
+Theorem C17_env_octal_accepted : forall ds min, ds <> [] -> digits_in 8 ds = true -> (0 <= min)%Z ->
+  (min < Z.of_N (base_val 8 ds) < 9223372036854775808)%Z ->
+  parse_or_default (48%N :: ds) min = EnvValue (Z.of_N (base_val 8 ds)).
+Proof. exact env_octal_accepted. Qed.
+Print Assumptions C17_env_octal_accepted.
+
+(* soundness of the value for EVERY accepted string, underscores included: the number is the base-b value of
+   the digit part with the underscores removed, all of whose characters are digits of that base *)
+Theorem C17_parse_uint_sound : forall s n, parse_uint0 s = UOk n ->
+  exists b body, base_body s = (b, body) /\
+    digits_in b (no_underscores body) = true /\ n = base_val b (no_underscores body) /\ (n < two64)%N.
+Proof. exact parse_uint0_sound. Qed.
+Print Assumptions C17_parse_uint_sound.
+
 (* non-vacuity and the spellings of the correspondence pool: "7", "0x7fffffff", "0b11", "1_000", "017",
    2^63-1 accepted; 2^63, "1" (not above the minimum), "08", "1__0", "0x" rejected *)
 Example C17_env_examples :
